@@ -264,6 +264,89 @@ def gen_set(r, names):
     return ("\n".join(out) + r.choice(["\n", "", "\n\n"])).encode("latin-1")
 
 
+
+# assignments whose value differs from the default, so that a line that wrongly takes effect is visible
+SET_ASSIGN = [("int", "iterlimit", ["0", "1", "7"]), ("int", "simplifier", ["0"]), ("int", "scaler", ["0", "1"]), ("int", "pricer", ["1", "3"]),
+              ("int", "representation", ["1", "2"]), ("bool", "lifting", ["true", "1"]), ("bool", "rowboundflips", ["true"]),
+              ("bool", "iterative_refinement", ["false", "0"]), ("real", "timelimit", ["5", "0.5"]), ("real", "feastol", ["1e-3"]),
+              ("real", "opttol", ["1e-2"]), ("uint", "random_seed", ["42", "7"])]
+
+
+def trunc_forms(ty, name, val, layout=0):
+    """the line 'ty:name = val' cut after the type, the ':', the name, the '=' (each with and without the blank that may
+    follow): every form must be rejected and must change nothing.  Returns [(form name, truncated line, rest of the full line)]"""
+    if layout == 0:
+        parts = [ty, ":", name, " ", "=", " ", val]
+    elif layout == 1:
+        parts = [ty, ":", name, "=", val]
+    else:
+        parts = [ty, " ", ":", " ", name, "\t", "=", "\t", val]
+    full = "".join(parts)
+    out = []
+    pos = 0
+    for k, t in enumerate(parts[:-1]):
+        pos += len(t)
+        what = {ty: "type", ":": "colon", name: "name", "=": "equals"}.get(t, "blank")
+        out.append(("after-%s%d" % (what, k), full[:pos], full[pos:]))
+    return out, full
+
+
+def settings_trunc_file(r, ty, name, val, form, layout, style):
+    """a settings file in which a truncated line follows a longer line whose tail, seen through the truncated line's
+    terminator, completes the assignment"""
+    forms, full = trunc_forms(ty, name, val, layout)
+    fname, cut, rest = forms[form % len(forms)]
+    n = len(cut)
+    if style == "comment":
+        prev = "#" + "c" * n + rest                      # prev[n+1:] == rest
+    elif style == "assign":
+        # a valid assignment to another parameter, padded so that its tail lines up
+        other = "int:verbosity" if name != "verbosity" else "int:displayfreq"
+        if len(other) <= n and rest.lstrip(" \t").startswith("=") :
+            prev = other + " " * (n + 1 - len(other)) + rest.lstrip(" \t")
+        else:
+            prev = "#" + "c" * n + rest
+    elif style == "nul":
+        # the rest behind a NUL byte on the same line
+        return ("int:iterlimit = 3\n" + cut + "\x00" + rest + "\n").encode("latin-1"), fname + ":nul"
+    elif style == "long":
+        prev = "#" + "x" * 498
+    else:
+        prev = "# short"
+    lines = ["int:iterlimit = 3" if name != "iterlimit" else "int:displayfreq = 3", prev, cut]
+    if r.random() < 0.5:
+        lines.append(r.choice(["# end", "", "bool:lifting = false" if name != "lifting" else "# x"]))
+    eol = r.choice(["\n", "\n", "\r\n"])
+    data = eol.join(lines) + r.choice([eol, "", eol])
+    return data.encode("latin-1"), fname + ":" + style + (":crlf" if eol == "\r\n" else "")
+
+
+def settings_boundary_files():
+    """every truncation form at line lengths 497..502 (the line buffer has 500 bytes: 499 characters + NUL)"""
+    out = []
+    forms, full = trunc_forms("int", "iterlimit", "0", 0)
+    for L in (497, 498, 499, 500, 501, 502):
+        for fname, cut, rest in forms + [("full", full, "")]:
+            pad = L - len(cut)
+            out.append(("bl-%d-%s.set" % (L, fname), ("int:iterlimit = 3\n" + " " * pad + cut + "\n" + "int:simplifier = 0\n").encode()))
+        out.append(("bl-%d-name.set" % L, ("int:iterlimit = 3\n" + "int:" + "a" * (L - 4) + "\n").encode()))
+        out.append(("bl-%d-type.set" % L, ("t" * L + "\nint:iterlimit = 3\n").encode()))
+        out.append(("bl-%d-value.set" % L, ("int:iterlimit = " + "1" * (L - 16)).encode()))
+        out.append(("bl-%d-noeol.set" % L, ("# c\n" + "int:" + "b" * (L - 4)).encode()))
+    return out
+
+
+def settings_witnesses():
+    out = [("t-verbosity-iterlimit.set", b"int:verbosity = 0\nint:iterlimit\n"),
+           ("t-comment-simplifier.set", b"#23456789012345= 0\nint:simplifier\n"),
+           ("t-nul-iterlimit.set", b"int:iterlimit\x00= 0\n"),
+           ("t-type-only.set", b"#cc:iterlimit = 0\nint\n"),
+           ("t-equals-only.set", b"#ccccccccccccccc 0\nint:iterlimit =\n"),
+           ("t-noeol.set", b"bool:lifting                 = true\nbool:rowboundflips"),
+           ("t-crlf.set", b"int:verbosity = 0\r\nint:iterlimit\r\n")]
+    return out
+
+
 DICT = [b"]", b"[", b":", b"$", b"\\", b"'MARKER'", b"'INTORG'", b"'INTEND'", b"\x00", b"\t", b"\r", b"*", b" free", b"<=", b">=", b"=", b"+", b"-",
         b"ENDATA", b"RHS", b"ROWS", b"COLUMNS", b"BOUNDS", b"RANGES", b"NAME", b"End", b"st", b"maximize]", b"subject]", b"\xff", b"\x80", b"e",
         b"inf", b"-inf", b"bounds", b"bounds]", b"generals]", b"binary]", b"end]", b"min[", b"/", b"1e", b"<", b">"]
@@ -842,6 +925,49 @@ def classify(exe, asan, test, data, lines, end):
     return res, outcome
 
 
+ck_slines = {}
+
+
+def check_settings_lines(ck, model, rundir):
+    """oracle from the proved lexer: a line the cursor machine (= SettingsLexer.tokenise) rejects must be rejected by
+    _parseSettingsLine and by parseSettingsString and must change no parameter; a blank / comment line is accepted and
+    changes nothing"""
+    if not ck_slines:
+        return
+    keys = sorted(ck_slines)
+    cf = os.path.join(rundir, "settok.cases")
+    with open(cf, "w") as f:
+        for h, a, b in keys:
+            f.write(h + "\n")
+    rc, out, err = vlib.sh([model, "settok", cf], timeout=600)
+    ml = out.splitlines()
+    if rc != 0 or len(ml) != len(keys):
+        ck.violation("model-crash", "model runner (settok) failed rc=%d: %s" % (rc, err[-300:]), {"kind": "model"}, no_input=True)
+        return
+    nrej = 0
+    for (h, a, b), m in zip(keys, ml):
+        line = b"" if h == "e" else bytes.fromhex(h)
+        ck.evaluated(("settings-line", h), nontrivial=bool(line))
+        ck.count("tie:settings-line:" + m.split()[0])
+        ga = a.split("=")[1]
+        tb = b.split("=")[1]
+        want = {"error": "0,0", "blank": "1,0"}.get(m.split()[0])
+        if want is None:
+            continue
+        nrej += 1
+        twin = len(line) <= 498
+        if ga != want or (twin and tb != want):
+            it = ck_slines[(h, a, b)]
+            ck.violation("tie-mismatch:settings-line:%s" % m.split()[0],
+                         "the proved tokeniser says %r is %s (return %s, no parameter changes) but _parseSettingsLine gives (return,changed)=%s and "
+                         "parseSettingsString %s" % (line[:120], m.split()[0], want[0], ga, tb if twin else "n/a"),
+                         {"line_hex": h, "model": m, "file_line": a, "string": b, "file_name": os.path.basename(it["path"]),
+                          "file_hex": it["data"].hex() if len(it["data"]) < 20000 else "", "test": "set",
+                          "correspondence": "LexersModel.c_parse false (= SettingsLexer.tokenise) vs _parseSettingsLine / parseSettingsString on exact-size guarded buffers"})
+    ck.cov["settings_lines_checked_against_model"] = len(keys)
+    ck.cov["settings_lines_model_rejects_or_blank"] = nrej
+
+
 def run_files(ck, exe, asan, items, rundir, workers, tag):
     """items: list of dict(test, path, data, aux, family).  Runs them through 'C13 run' in parallel chunks."""
     env = dict(os.environ)
@@ -889,6 +1015,11 @@ def run_files(ck, exe, asan, items, rundir, workers, tag):
             ck.violation("harness-lost:%s" % tag, "no result for input %d (%s)" % (k, it["path"]), {"kind": "harness"}, no_input=True)
             continue
         lines, end = results[k]
+        if it["test"] == "set" and not asan:
+            for l in lines:
+                if l.startswith("sline "):
+                    t = l.split()
+                    ck_slines.setdefault((t[2], t[3], t[4]), it)
         sigs, outcome = classify(exe, asan, it["test"], it["data"], lines, end)
         rd = reader_of(it["test"], it["data"])
         rl = next((l for l in lines if l.startswith(("read ", "readbasis ", "load "))), "")
@@ -1044,6 +1175,21 @@ def build_inputs(ck, rundir, quick):
     for f in sorted(os.listdir(SETDIR))[:3 if quick else 20]:
         d, fam = mutate(r, open(os.path.join(SETDIR, f), "rb").read())
         add("ms-" + f, "set", d, "set:" + fam)
+    # 6. settings files with truncated lines behind longer lines, and the line-length boundary
+    for name, d in settings_witnesses():
+        add(name, "set", d, "set-trunc:witness")
+    for name, d in settings_boundary_files():
+        add(name, "set", d, "set-boundary")
+    k = 0
+    for ty, nm, vals in SET_ASSIGN:
+        for layout in ((0, 1, 2) if not quick else (0, r.choice((1, 2)))):
+            nforms = len(trunc_forms(ty, nm, vals[0], layout)[0])
+            for form in range(nforms):
+                styles = ["comment", "assign", "nul", "long", "short"]
+                for style in (styles if not quick else [styles[(k + form) % 2], r.choice(styles[2:])]):
+                    d, fam = settings_trunc_file(r, ty, nm, r.choice(vals), form, layout, style)
+                    add("tr%d.set" % k, "set", d, "set-trunc:" + fam.split(":")[1])
+                    k += 1
     return items
 
 
@@ -1088,6 +1234,7 @@ def main():
         found = run_files(ck, exe, False, items, rundir, workers, "plain")
         ck.cov["plain_run_s"] = round(time.time() - t1, 1)
         report(ck, found, "plain", exe, False, rundir)
+        check_settings_lines(ck, model, rundir)
 
         asan_exe = None
         if quick and not ck.args.replay:
@@ -1106,8 +1253,9 @@ def main():
             if quick:
                 # time budget: everything that is small, witnesses first
                 budget = 500
-                sel = [it for it in items if it["family"] in ("witness", "corpus")] + [it for it in items if it["family"] not in ("witness", "corpus") and len(it["data"]) < 60000]
-                sel = sel[:budget]
+                first = ("witness", "corpus", "set-trunc:witness", "set-boundary")
+                sel = [it for it in items if it["family"] in first] + [it for it in items if it["family"] not in first and len(it["data"]) < 60000]
+                sel = sel[:budget + 70]
             t1 = time.time()
             found2 = run_files(ck, ex2, True, sel, rundir, workers, "asan")
             ck.cov["asan_run_s"] = round(time.time() - t1, 1)
